@@ -184,6 +184,13 @@ var (
 	numFullRe   = regexp.MustCompile(`^[-+]?([0-9]+\.?[0-9]*|\.[0-9]+)([eE][-+]?[0-9]+)?`)
 )
 
+// properties / descriptors whose numbers are counter values or representation lengths
+var counterNumbers = map[string]bool{"pad": true, "counter-reset": true, "counter-increment": true, "counter-set": true}
+
+// ... and those whose numbers are not geometry either
+var nonGeometric = map[string]bool{"range": true, "system": true, "additive-symbols": true, "symbols": true, "z-index": true, "bookmark-level": true,
+	"content": true, "string-set": true, "bookmark-label": true, "negative": true, "prefix": true, "suffix": true, "fallback": true, "speak-as": true, "quotes": true}
+
 type featureSet map[string]bool
 
 func (f featureSet) add(s string) { f[s] = true }
@@ -250,6 +257,12 @@ func declFeatures(f featureSet, ds []Decl, where string, fine bool) {
 				case math.Abs(v) >= 1e6 || math.IsInf(v, 0):
 					f.add("num:" + name + "=astronomic")
 					f.add("astronomic-number")
+					switch {
+					case counterNumbers[name]:
+						f.add("astronomic-counter") // the value of a counter / the length of its representation
+					case !nonGeometric[name]:
+						f.add("astronomic-length") // a number that sizes, places or multiplies something laid out or drawn
+					}
 				case v < 0:
 					f.add("num:" + name + "=negative")
 				case v == 0:
@@ -345,6 +358,11 @@ func nodeFeatures(f featureSet, n *Node, depth int, fine bool, maxDepth *int) {
 			f.add("attr:" + a[0])
 			if fine && (a[0] == "dir" || a[0] == "type" || a[0] == "align") {
 				f.add("attr:" + a[0] + "=" + strings.ToLower(a[1]))
+			}
+			if fine && (a[0] == "start" || a[0] == "value") && (n.Tag == "ol" || n.Tag == "li" || n.Tag == "ul") {
+				if v, err := strconv.ParseFloat(a[1], 64); err == nil && math.Abs(v) >= 1e6 {
+					f.add("astronomic-counter") // list item numbers
+				}
 			}
 			if a[0] == "src" || a[0] == "href" || a[0] == "data" || a[0] == "xlink:href" {
 				switch {
